@@ -3,6 +3,27 @@
 EXTENDS Executor, TLC
 
 KnownIds == {}
-DevApplies(id, e, subj) == FALSE
-KnownDeviation(id, e, subj) == FALSE /\ UNCHANGED where
+
+(* ---------------------------------------------------------------------------------------- *)
+(* C18-KF1: a task whose body panics takes its worker down (worker_loop awaits                *)
+(* task.execute() unguarded, the panic ends the worker's tokio task): what is queued behind   *)
+(* it - the rest of that worker's local queue, non-stealable tasks in particular, everything   *)
+(* when it was the only worker - is never executed and the executor never becomes idle.        *)
+(* Even when the other workers manage to drain everything, the dead worker's task stays        *)
+(* counted as active: is_idle() is false for good and total_executed misses the task.           *)
+(* Admitted ONLY: the final event of a run in which the harness made one task panic             *)
+(* (reset.panic_at), reporting exactly the tasks still queued as pending (possibly none), none   *)
+(* of them taken, none executed twice (Take / Finish are still judged by the contract for every  *)
+(* other event), not idle, and the counter short by exactly the panicking task.                  *)
+G1(e, subj) ==
+    /\ subj.subject = "wse@panicking_task" /\ Len(subj.panic_at) = 1
+    /\ e.op = "final"
+    /\ Ids("running") = {}
+    /\ e.pending = Cardinality(Ids("queued")) /\ e.queued = e.pending
+    /\ ~e.idle                                            \* the dead worker's task stays "active" for ever
+    /\ e.executed = Cardinality(Ids("done")) - 1          \* the panicking task was never counted
+KF1(e, subj) == G1(e, subj) /\ UNCHANGED where
+
+DevApplies(id, e, subj) == id = "C18-KF1" /\ G1(e, subj)
+KnownDeviation(id, e, subj) == id = "C18-KF1" /\ KF1(e, subj)
 =============================================================================
